@@ -141,8 +141,9 @@ func (w *worker) runWS(f []string) string {
 	// gorilla 1.5.1's default close handler turns "close already sent" into a read error; keep the CloseError
 	conn.SetCloseHandler(func(int, string) error { return nil })
 
-	firstJSONBad := "na" // is the first client message (text) syntactically invalid JSON?
+	firstJSONBad := "na" // is the FIRST frame the client sends a text message with syntactically invalid JSON?
 	sentAny := false
+	ci := 0 // the client itself sent close frames / raw wire bytes / control frames (protocol-level interference)
 	for _, fr := range f[6:] {
 		if fr == "S" {
 			time.Sleep(3 * time.Millisecond)
@@ -168,12 +169,20 @@ func (w *worker) runWS(f []string) string {
 			sentAny = true
 			err = conn.WriteMessage(websocket.BinaryMessage, payload)
 		case 'P':
+			sentAny = true
+			ci = 1
 			err = conn.WriteControl(websocket.PingMessage, payload, time.Now().Add(time.Second))
 		case 'O':
+			sentAny = true
+			ci = 1
 			err = conn.WriteControl(websocket.PongMessage, payload, time.Now().Add(time.Second))
 		case 'C':
+			sentAny = true
+			ci = 1
 			err = conn.WriteControl(websocket.CloseMessage, payload, time.Now().Add(time.Second))
 		case 'R':
+			sentAny = true
+			ci = 1
 			_, err = conn.UnderlyingConn().Write(payload)
 		default:
 			return finish("BADFRAME")
@@ -186,7 +195,7 @@ func (w *worker) runWS(f []string) string {
 		_ = conn.WriteControl(websocket.CloseMessage, websocket.FormatCloseMessage(websocket.CloseNormalClosure, ""), time.Now().Add(time.Second))
 	}
 	if end == "drop" {
-		return finish("hs=101 hwf=1 n=0 wfm=1 cc=none cu=1 rc=na tr=0 lt=0 gs=na fj=" + firstJSONBad)
+		return finish("hs=101 hwf=1 n=0 wfm=1 cc=none cu=1 rc=na tr=0 lt=0 gs=na ci=" + strconv.Itoa(ci) + " fj=" + firstJSONBad)
 	}
 
 	// read until the connection ends
@@ -247,5 +256,5 @@ func (w *worker) runWS(f []string) string {
 		}
 	}
 	return finish(strings.Join([]string{"hs=101 hwf=1", kv("n", n), kv("wfm", wfm), kv("cc", cc), kv("cu", cu), kv("rc", rc),
-		kv("tr", tr), kv("lt", lt), kv("gs", gs), kv("fj", firstJSONBad)}, " "))
+		kv("tr", tr), kv("lt", lt), kv("gs", gs), kv("ci", ci), kv("fj", firstJSONBad)}, " "))
 }
